@@ -159,7 +159,7 @@ static char type_char(int type)
     }
 }
 
-static void walk(ctx_t *c, const cJSON *n, size_t depth, int in_object);
+static void walk(ctx_t *c, const cJSON *n, size_t depth, int in_object, int borrowed);
 
 static void walk_children(ctx_t *c, const cJSON *parent, size_t depth, int borrowed)
 {
@@ -188,7 +188,7 @@ static void walk_children(ctx_t *c, const cJSON *parent, size_t depth, int borro
                 return;
             }
         }
-        walk(c, cur, depth, is_object);
+        walk(c, cur, depth, is_object, borrowed);
         if (c->flags & (WF_NEXT_CYCLE | WF_TOO_DEEP))
         {
             return;
@@ -206,7 +206,7 @@ static void walk_children(ctx_t *c, const cJSON *parent, size_t depth, int borro
     }
 }
 
-static void walk(ctx_t *c, const cJSON *n, size_t depth, int in_object)
+static void walk(ctx_t *c, const cJSON *n, size_t depth, int in_object, int borrowed)
 {
     char t = type_char(n->type);
     char tmp[64];
@@ -232,7 +232,7 @@ static void walk(ctx_t *c, const cJSON *n, size_t depth, int in_object)
     {
         sb_putc(&c->sb, t);
     }
-    if (n->type & cJSON_StringIsConst)
+    if ((n->type & cJSON_StringIsConst) && (n->string != NULL))
     {
         sb_putc(&c->sb, 'c');
     }
@@ -246,7 +246,7 @@ static void walk(ctx_t *c, const cJSON *n, size_t depth, int in_object)
         sb_hex(&c->sb, (const unsigned char *)n->string);
         sb_putc(&c->sb, ';');
     }
-    else if (in_object)
+    else if (in_object && !borrowed)
     {
         c->flags |= WF_NULL_KEY;
     }
@@ -259,7 +259,12 @@ static void walk(ctx_t *c, const cJSON *n, size_t depth, int in_object)
     }
     else if (t == 'S' || t == 'R')
     {
-        if (n->valuestring == NULL)
+        if (is_ref && !c->follow_refs)
+        {
+            /* borrowed string that may be gone: not read */
+            sb_puts(&c->sb, "s?");
+        }
+        else if (n->valuestring == NULL)
         {
             c->flags |= WF_NULL_VALUESTRING;
             sb_puts(&c->sb, "s!");
@@ -275,7 +280,7 @@ static void walk(ctx_t *c, const cJSON *n, size_t depth, int in_object)
     {
         if (!is_ref || c->follow_refs)
         {
-            walk_children(c, n, depth + 1, is_ref);
+            walk_children(c, n, depth + 1, is_ref || borrowed);
         }
     }
     else if (n->child != NULL && t != '?')
@@ -301,7 +306,7 @@ static void run(ctx_t *c, const cJSON *root, int follow_refs, int check_root_lin
             c->flags |= WF_ROOT_SIBLINGS;
         }
         pset_add(&c->seen, (uintptr_t)root);
-        walk(c, root, 0, 0);
+        walk(c, root, 0, 0, 0);
     }
     probe_free(c->seen.slots);
     c->seen.slots = NULL;
